@@ -459,7 +459,7 @@ func (x *wireExtractor) call(call *ast.CallExpr) []wireItem {
 		}
 	}
 	// inline in-package callees that are pure emitters/decoders of part of the caller's record
-	if fn.Pkg() == x.c.Root.Types && wireInline[declName(fn)] {
+	if fn.Pkg() == x.c.Root.Types && !wireBoundary[declName(fn)] {
 		sub := x.sigOf(fn)
 		// a scratch buffer filled by Put* and handed to a pure forwarding helper (signature: one RAW) is the carrier of that primitive
 		if len(sub) == 1 && sub[0].Kind == "RAW" {
@@ -476,14 +476,31 @@ func (x *wireExtractor) call(call *ast.CallExpr) []wireItem {
 	return nil
 }
 
-var wireInline = map[string]bool{
-	"writeRoaringWithLen":                true,
-	"(*chunkedIntCoder).writeAt":         true,
-	"(*chunkedIntCoder).Write":           true,
-	"(*chunkedDocumentCoder).writeToBuf": true,
-	"(*Segment).getDocStoredOffsetsOnly": true,
-	"(*Segment).getDocStoredOffsets":     true,
-	"(*PostingsList).init1Hit":           true,
+// wireBoundary: functions that own a record / section of their own (they have
+// their own signature in the table) and are therefore NOT inlined into their
+// callers.  Every other in-package callee — including helpers introduced by a
+// refactoring — is inlined, so extracting a helper does not change a signature.
+var wireBoundary = map[string]bool{
+	"persistFooter": true, "persistFields": true, "writePostings": true,
+	"(*interim).writeDictsField": true, "(*interim).writeDictsTermField": true, "writeMergedDict": true,
+	"(*interim).writeDicts": true, "writeDvLocs": true, "buildMergedDocVals": true,
+	"(*chunkedDocumentCoder).Add": true, "(*chunkedDocumentCoder).Write": true, "(*chunkedDocumentCoder).flush": true,
+	"(*chunkedDocumentCoder).newLine":      true,
+	"(*chunkedContentCoder).flushContents": true, "(*chunkedContentCoder).Write": true, "(*chunkedContentCoder).Add": true,
+	"(*chunkedContentCoder).Close": true,
+	"(*interim).writeStoredFields": true, "mergeStoredAndRemap": true, "mergeStoredAndRemapSegment": true,
+	"(*chunkedIntCoder).Add": true, "(*chunkedIntCoder).Close": true,
+	"persistMergedRest": true, "persistMergedRestField": true, "finishTerm": true, "prepareNewTerm": true,
+	"mergeTermFreqNormLocs": true, "mergeToWriter": true, "(*interim).convert": true,
+	// readers
+	"parseFooter": true, "(*Segment).loadFields": true, "(*PostingsList).read": true, "newChunkedIntDecoder": true,
+	"(*Segment).dictionary": true, "(*Segment).loadDvReaders": true, "(*Segment).copyStoredDocs": true,
+	"(*Segment).loadStoredFieldChunk": true, "(*docValueReader).loadDvChunk": true,
+	"(*Segment).loadFieldDocValueReader": true, "(*chunkedIntDecoder).loadChunk": true,
+	"(*Dictionary).postingsListFromOffset": true, "(*Dictionary).postingsList": true, "(*PostingsList).iterator": true,
+	"(*PostingsIterator).loadChunk": true, "(*docValueReader).iterateAllDocValues": true, "(*docValueReader).visitDocValues": true,
+	"(*Segment).visitDocument": true, "(*Segment).visitDocumentFieldTerms": true, "load": true, "initSegmentBase": true,
+	"(*Segment).getDocStoredMetaAndUnCompressed": true,
 }
 
 func (x *wireExtractor) markCarrier(buf ast.Expr) {
